@@ -423,7 +423,13 @@ func (t *ftr) stmts(list []ast.Stmt, tail func() string, ind string) string {
 		}
 		cond := t.expr(x.Cond)
 		saved := t.snapshot()
-		thenT := t.stmts(x.Body.List, func() string { bail(t.p, x, "if-branch falls through"); return "" }, ind+"  ")
+		var thenT string
+		if n := len(x.Body.List); n > 0 && isReturn(x.Body.List[n-1]) {
+			thenT = t.stmts(x.Body.List, func() string { bail(t.p, x, "if-branch falls through"); return "" }, ind+"  ")
+		} else {
+			// the branch falls through: what follows the `if` is translated once more behind the branch's own statements
+			thenT = t.stmts(append(append([]ast.Stmt{}, x.Body.List...), rest...), tail, ind+"  ")
+		}
 		t.restore(saved)
 		var elseT string
 		if x.Else != nil {
@@ -439,6 +445,11 @@ func (t *ftr) stmts(list []ast.Stmt, tail func() string, ind string) string {
 	}
 	bail(t.p, s, "unsupported statement %T", s)
 	return ""
+}
+
+func isReturn(s ast.Stmt) bool {
+	_, ok := s.(*ast.ReturnStmt)
+	return ok
 }
 
 func (t *ftr) snapshot() map[string]bool {
